@@ -96,6 +96,9 @@ def deserialize_json(
 
 def _extract_json(value: FlattenedJSONSerialization) -> t.Optional[FlattenedJSONSignature]:
     if "signatures" in value:
+        # the general serialization is processed by the RFC 7515 code, which
+        # always base64url-decodes the payload
+        _refuse_unencoded_general_json(value["signatures"])
         return None
 
     if "protected" in value:
@@ -122,3 +125,20 @@ def _extract_json(value: FlattenedJSONSerialization) -> t.Optional[FlattenedJSON
     obj.signature = _sig
     obj.segments = {"payload": payload}
     return obj
+
+
+def _refuse_unencoded_general_json(signatures: t.Any) -> None:
+    if not isinstance(signatures, list):
+        return
+    for sig in signatures:
+        if not isinstance(sig, dict):
+            continue
+        headers: t.Dict[str, t.Any] = {}
+        if isinstance(sig.get("protected"), str):
+            protected = json_b64decode(to_bytes(sig["protected"]))
+            if isinstance(protected, dict):
+                headers.update(protected)
+        if isinstance(sig.get("header"), dict):
+            headers.update(sig["header"])
+        if headers.get("b64") is False:
+            raise DecodeError('"b64" false is not supported in general JSON serialization')
